@@ -46,7 +46,7 @@ class StreamRun(Job):
     max_seconds = 1200
 
     def __init__(self, frontend, n, windows, axes=("z", "lat", "lon"), streams=1, tests=("probe_test",), sorted_times=None,
-                 canary=None, prop="C05", offdim=None, wbound="timestamp"):
+                 canary=None, prop="C05", offdim=None, wbound="timestamp", dcarrier="ndarray"):
         self.frontend, self.n, self.windows, self.axes, self.streams, self.tests = frontend, n, tuple(windows), tuple(axes), streams, tuple(tests)
         self.sorted_times = (frontend == "xarray") if sorted_times is None else sorted_times
         self.canary = canary
@@ -58,10 +58,14 @@ class StreamRun(Job):
         # numpy.datetime64 or datetime.datetime.  The symbolic run carries the same symbolic instant in every case (the library
         # only compares it with the time axis); the type matters on the real stack, where every witness / probe is replayed
         self.wbound = wbound
+        # "masked": the data arrive as a numpy masked array - a missing observation is a masked element with an arbitrary
+        # (symbolic) value underneath, which must not be judged
+        self.dcarrier = dcarrier
         self.name = (f"stream[{frontend}] n={n} windows={'+'.join(windows)} axes={','.join(axes) or '-'} streams={streams} "
                      f"tests={'+'.join(tests)}{' sorted' if self.sorted_times else ''}"
                      f"{' +variable-on-another-dimension-' + offdim if offdim else ''}"
-                     f"{' window-bounds-as-' + wbound if wbound != 'timestamp' else ''}") + (f" CANARY={canary}" if canary else "")
+                     f"{' window-bounds-as-' + wbound if wbound != 'timestamp' else ''}"
+                     f"{' data-as-masked-array' if dcarrier == 'masked' else ''}") + (f" CANARY={canary}" if canary else "")
         if canary:
             self.expect_canary_sat = True
             self.validate_witnesses = False
@@ -91,6 +95,7 @@ class StreamRun(Job):
             S.win.append((st, en))
         S.thr = [V.float(f"thr{k}", lo=-4, hi=4) for k in range(len(self.windows))]
         S.u = V.floats("u", n + 1, nan=True) if self.offdim else None
+        S.hidden = [V.floats(f"h{s}_", n) for s in range(self.streams)] if self.dcarrier == "masked" else None
         if self.frontend == "pandas_idx":
             # arbitrary row labels: not 0..n-1, not sorted, possibly repeated (e.g. pd.concat without ignore_index)
             S.labels = [V.int(f"lab{i}", 0, n + 1) for i in range(n)]
@@ -133,7 +138,11 @@ class StreamRun(Job):
         ids = self.stream_ids()
         n = self.n
         t = K.tarray(S.t)
-        cols = {sid: K.farray(S.data[i]) for i, sid in enumerate(ids)}
+        if self.dcarrier == "masked":
+            cols = {sid: K.marray([_pick(K, x, h) for x, h in zip(S.data[i], S.hidden[i])], [_isnan(K, x) for x in S.data[i]])
+                    for i, sid in enumerate(ids)}
+        else:
+            cols = {sid: K.farray(S.data[i]) for i, sid in enumerate(ids)}
         ax = {"z": K.farray(S.z), "lat": K.farray(S.lat), "lon": K.farray(S.lon)}
         ax = {k: v for k, v in ax.items() if k in self.axes}
         if fe in ("numpy", "numpy_dict"):
@@ -176,8 +185,10 @@ class StreamRun(Job):
             probe = list(log)
             # direct calls of the real neighbour/time dependent tests on the oracle's window rows
             direct = {}
+            rows_of_window = {}
             for k, (st, en) in enumerate(S.win):
                 rows = [r for r in range(self.n) if self._in_window_concrete(S, k, r)]
+                rows_of_window[k] = rows
                 for s, sid in enumerate(self.stream_ids()):
                     for tname in self.tests:
                         if tname == "probe_test":
@@ -188,7 +199,7 @@ class StreamRun(Job):
                             direct[(k, sid, tname)] = q.spike_test(x, suspect_threshold=abs(S.thr[k]), fail_threshold=4)
                         else:
                             direct[(k, sid, tname)] = q.rate_of_change_test(x, tt, threshold=abs(S.thr[k]))
-            return {"res": res, "probe": probe, "direct": direct}
+            return {"res": res, "probe": probe, "direct": direct, "rows": rows_of_window}
         finally:
             remove_probe(q)
 
@@ -266,7 +277,7 @@ class StreamRun(Job):
             mask += [FALSE, FALSE]
             flags.append(mk_if(m, rv(1), rv(0)))
             mask.append(FALSE)
-        return Outcome(flags=flags, mask=mask, shape=(len(flags),), extra={"items": items, "shape": shape, "nprobe": len(out["probe"])})
+        return Outcome(flags=flags, mask=mask, shape=(len(flags),), extra={"items": items, "shape": shape, "nprobe": len(out["probe"]), "rows": out.get("rows", {})})
 
     # -- the property --------------------------------------------------------------------------------
     def holds(self, S, out):
@@ -289,8 +300,9 @@ class StreamRun(Job):
             """symbolic selection: list of (row, in-window condition)"""
             return [(r, self._in_window(S, k, r)) for r in range(n)]
 
-        def expect_rows(prefix, k, values, what):
-            """array `prefix[i]` must be the window rows of `values` in original order"""
+        def expect_rows(prefix, k, values, what, masked_is_missing=False):
+            """array `prefix[i]` must be the window rows of `values` in original order (with a masked-array carrier a missing
+            observation comes back as a masked element, whatever lies underneath)"""
             conds = rows_of(k)
             # i-th selected row = r  <=>  in(r) and exactly i rows before r are in the window
             cnt_before = []
@@ -306,7 +318,10 @@ class StreamRun(Job):
                 alts = []
                 for (r, c), cb in zip(conds, cnt_before):
                     xn, xv = enc(values[r])
-                    alts.append(mk_and(c, mk_eq(cb, z3.IntVal(i)), mk_not(m), mk_eq(nn, xn), mk_or(xn, mk_eq(v, xv))))
+                    same = mk_and(mk_not(m), mk_eq(nn, xn), mk_or(xn, mk_eq(v, xv)))
+                    if masked_is_missing:
+                        same = mk_or(mk_and(m, xn), mk_and(mk_not(m), mk_not(xn), mk_not(nn), mk_eq(v, xv)))
+                    alts.append(mk_and(c, mk_eq(cb, z3.IntVal(i)), same))
                 obl.append((f"{prefix}[{i}]: is the {i}-th window row ({what})", mk_or(*alts)))
 
         axes_vals = {"zinp": ("z", S.z), "lat": ("lat", S.lat), "lon": ("lon", S.lon)}
@@ -314,7 +329,21 @@ class StreamRun(Job):
             # collected dict form: every row covered by a context carries that context's flag; contexts are applied in order
             for tname, ln in out.extra["shape"]:
                 obl.append((f"qc:{tname}: one flag per input row", TRUE if ln == n else FALSE))
-                if ln != n or tname != "probe_test":
+                if ln != n:
+                    continue
+                if tname != "probe_test":
+                    # the real test: flags of the direct call on each context's window rows, later contexts overwrite earlier ones
+                    rows_of_window = out.extra.get("rows", {})
+                    for r in range(n):
+                        exp = rv(2)
+                        for k in range(len(self.windows)):
+                            rows = rows_of_window.get(k, [])
+                            lab = f"direct:{k}:{ids[0]}:{tname}[{rows.index(r)}]" if r in rows else None
+                            if lab is not None and lab in items:
+                                exp = items[lab][2]
+                        m, nn, v = items[f"qc:{tname}[{r}]"]
+                        obl.append((f"qc:{tname}[{r}]: flag of the direct call on the window rows of the (last) context holding the row",
+                                    mk_and(mk_not(m), mk_eq(v, exp))))
                     continue
                 for r in range(n):
                     exp = rv(2)
@@ -346,7 +375,7 @@ class StreamRun(Job):
                     m, nn, v = items[f"cr{j}:subset_indexes[{r}]"]
                     obl.append((f"cr{j}: subset_indexes[{r}] <=> starting <= t < ending",
                                 mk_eq(v, mk_if(self._in_window(S, k, r), rv(1), rv(0)))))
-                expect_rows(f"cr{j}:data", k, S.data[s], "data restricted to the window rows")
+                expect_rows(f"cr{j}:data", k, S.data[s], "data restricted to the window rows", masked_is_missing=self.dcarrier == "masked")
                 expect_rows(f"cr{j}:tinp", k, S.t, "times restricted to the window rows")
                 for fld, (axn, vals) in axes_vals.items():
                     if axn in self.axes:
@@ -397,6 +426,19 @@ def _to_array(v):
     if isinstance(v, (pd.Series, pd.Index)):
         return v.to_numpy()
     return np.asarray(v)
+
+
+def _isnan(K, x):
+    if K.sym:
+        return SBool(x.nan)
+    return x != x
+
+
+def _pick(K, x, h):
+    """value stored in the masked array: the observation, or an arbitrary hidden value where it is missing"""
+    if K.sym:
+        return SFloat(FALSE, mk_if(x.nan, h.v, x.v))
+    return h if x != x else x
 
 
 class _StreamKit:
@@ -456,6 +498,9 @@ def jobs(tier):
         out.append(StreamRun(fe, n, ("start",), axes=("z",), tests=("probe_test", "spike_test")))
         if fe != "qcconfig":
             out.append(StreamRun(fe, 3, ("closed",), axes=(), tests=("rate_of_change_test",)))
+        if fe in ("numpy", "numpy_dict", "qcconfig"):      # (a DataFrame / Dataset column cannot hold a masked array)
+            out.append(StreamRun(fe, n, ("closed",), axes=(), tests=("spike_test",), dcarrier="masked"))
+            out.append(StreamRun(fe, 3, ("start",), axes=(), tests=("spike_test",), dcarrier="masked"))
         if fe != "qcconfig":
             for wb in ("iso", "datetime64", "datetime"):
                 out.append(StreamRun(fe, n, ("closed",), axes=(), wbound=wb))
